@@ -354,9 +354,13 @@ class Model:
         """Find a class by bare name (must be unique) or by module + name."""
         if module is not None:
             m = self.modules.get(module if module.startswith(PKG) else f"{PKG}.{module}")
-            if m is None or name not in m.classes:
-                raise AnalysisError(f"anchor vanished: class {module}.{name}")
-            return m.classes[name]
+            if m is not None and name in m.classes:
+                return m.classes[name]
+            # moved to another module: the class of that name, if unique in the package
+            found = [c for c in self.classes if c.name == name and c.outer is None]
+            if len(found) == 1:
+                return found[0]
+            raise AnalysisError(f"anchor vanished: class {module}.{name}")
         found = [c for c in self.classes if c.name == name]
         if not found:
             raise AnalysisError(f"anchor vanished: class {name}")
@@ -369,9 +373,13 @@ class Model:
 
     def func(self, module: str, name: str):
         m = self.modules.get(module if module.startswith(PKG) else f"{PKG}.{module}")
-        if m is None or name not in m.functions:
-            raise AnalysisError(f"anchor vanished: function {module}.{name}")
-        return m, m.functions[name]
+        if m is not None and name in m.functions:
+            return m, m.functions[name]
+        # moved to another module (with or without a re-export): the module-level function of that name, if unique
+        found = [(mm, mm.functions[name]) for mm in self.modules.values() if name in mm.functions]
+        if len(found) == 1:
+            return found[0]
+        raise AnalysisError(f"anchor vanished: function {module}.{name}" + (f" (ambiguous: {[mm.name for mm, _ in found]})" if found else ""))
 
     def method(self, cls: ClassInfo, name: str, own=False) -> Member:
         m = cls.members.get(name) if own else cls.provider(name)
